@@ -181,7 +181,7 @@ impl<S> WidthHeuristic<S> for WidthBox {
 #[derive(Clone, Debug, Default)]
 pub struct Snap { pub pushes: u64, pub pops: u64, pub max_len: u64, pub ub_increases: u64, pub self_requeues: u64, pub non_progress: u64, pub clears: u64 }
 #[derive(Clone, Debug, Default)]
-pub struct CSnap { pub reads: u64, pub hits: u64, pub writes_explored: u64, pub writes_unexplored: u64, pub must_explore_calls: u64, pub must_explore_refusals: u64, pub layer_clears: u64 }
+pub struct CSnap { pub reads: u64, pub hits: u64, pub writes_explored: u64, pub writes_unexplored: u64, pub must_explore_calls: u64, pub must_explore_refusals: u64, pub layer_clears: u64, pub max_refusal_run: u64 }
 
 #[derive(Clone, Debug, Default)]
 pub struct Outcome {
@@ -399,7 +399,7 @@ pub fn run_solver<F: Fam>(inst: &Arc<F>, cfg: &Cfg) -> Outcome {
     out.cache = CSnap {
         reads: cstats.reads.load(AO::Relaxed), hits: cstats.hits.load(AO::Relaxed), writes_explored: cstats.writes_explored.load(AO::Relaxed),
         writes_unexplored: cstats.writes_unexplored.load(AO::Relaxed), must_explore_calls: cstats.must_explore_calls.load(AO::Relaxed),
-        must_explore_refusals: cstats.must_explore_refusals.load(AO::Relaxed), layer_clears: cstats.layer_clears.load(AO::Relaxed),
+        must_explore_refusals: cstats.must_explore_refusals.load(AO::Relaxed), layer_clears: cstats.layer_clears.load(AO::Relaxed), max_refusal_run: cstats.max_refusal_run.load(AO::Relaxed),
     };
     out.violations = std::mem::take(&mut *ctx.violations.lock().unwrap());
     out.counters = std::mem::take(&mut *ctx.counters.lock().unwrap());
